@@ -15,6 +15,11 @@ for seed in seeds:
     for i in range(1, 21):
         c = "C%02d" % i
         p = subprocess.run(["./check", c, "--tier", "quick"], cwd=root, env=dict(os.environ, VERIF_SEED=str(seed)), stdout=subprocess.PIPE, stderr=subprocess.STDOUT, text=True)
-        rec = {"seed": seed, "check": c, "exit": p.returncode, "tail": p.stdout.strip().splitlines()[-3:] if p.returncode else []}
+        import re
+        m = re.search(r"foreign=(\d+)", p.stdout)
+        foreign = int(m.group(1)) if m else -1
+        # on the unchanged tree EVERY predicate of EVERY property must hold on every trace: a foreign alarm is a false alarm too
+        rec = {"seed": seed, "check": c, "exit": p.returncode, "foreign": foreign,
+               "tail": p.stdout.strip().splitlines()[-3:] if (p.returncode or foreign) else []}
         out.write(json.dumps(rec) + "\n"); out.flush()
         print(json.dumps(rec), flush=True)
